@@ -1,6 +1,7 @@
 package main
 
 import (
+	"math"
 	"encoding/json"
 	"fmt"
 	"math/rand/v2"
@@ -256,7 +257,7 @@ func c13Gen(tier string, r *rand.Rand) []Case {
 	for kl := 0; kl <= 15; kl++ {
 		add("kmac-reject", c13In{Alg: "kmac128", Key: hx(rbytes(r, kl)), Cust: hx(rbytes(r, kl%3)), OutSize: 32})
 	}
-	for _, os := range []int{-1, -2, -32, -1 << 40} {
+	for _, os := range []int{-1, -2, -32, -1 << 40, math.MinInt64, -1 << 62, -1 << 61, -1<<61 + 5, -1<<62 - 7, math.MinInt64 + 32} {
 		add("kmac-reject", c13In{Alg: "kmac128", Key: hx(rbytes(r, 16+r.IntN(20))), OutSize: os})
 	}
 	add("kmac-reject", c13In{Alg: "kmac128", Key: hx(rbytes(r, 3)), OutSize: -5})
